@@ -336,6 +336,11 @@ def run_case(scn, ctx):
 
                 pls = _glob.glob(os.path.join(w.abs("_flat/out"), "*", "packinglist_*.mhl"))
                 require(len(pls) == 1, "flatten", "packing lists: %r" % pls, fres)
+                # the packing list's file name carries the UTC time of the flatten run, like the generations' names
+                pm = re.match(r"^packinglist_.*_(\d{4}-\d{2}-\d{2}_\d{6})Z\.mhl$", os.path.basename(pls[0]), re.S)
+                require(pm is not None, "name", "packing list name %r" % os.path.basename(pls[0]), fres)
+                pts = datetime.datetime.strptime(pm.group(1), "%Y-%m-%d_%H%M%S").replace(tzinfo=datetime.timezone.utc).timestamp()
+                require(int(f0) <= pts <= f1, "name-utc", "packing list name time %s is not the UTC time of the flatten run [%s, %s] (TZ=%s)" % (pm.group(1), f0, f1, scn["flatten_tz"]), fres)
                 pdoc = _refxml.read_manifest(pls[0])
                 res = fres
                 orig = {r["path"]: r for r in doc["records"] if r["kind"] == "file"}
